@@ -78,7 +78,7 @@ def table_obligations(f, rep, T):
         rep.ob('O-ctor', subj, ok, 'after %s the image sums to %s (mod 256), not 0' % (s.fn['name'], show(tot)), sp=s.fn['sp'],
                detail={'image_sum_mod_256': show(tot), 'stored_checksum': show(hck), 'witness': w})
         if T.has_ledger:
-            led = s.post.fields[T.ledger_field].fields['value']
+            led = T.ledger_value(s.post)
             d = z(sub(led, Ssum))
             ok2, w2 = equal(d, ZERO, facts_)
             rep.ob('O-ctor-ledger', subj, ok2, 'after %s the running sum differs from the byte sum of the image by %s' % (s.fn['name'], show(d)), sp=s.fn['sp'],
@@ -92,7 +92,7 @@ def table_obligations(f, rep, T):
         L0 = T.header(s.pre).fields['length']
         facts_ = [c for c, _ in s.facts] + [cmp('eq', L0, strip_trunc(seqlen(s.E_pre)))]
         if T.has_ledger:
-            l0 = s.pre.fields[T.ledger_field].fields['value']; l1 = s.post.fields[T.ledger_field].fields['value']
+            l0 = T.ledger_value(s.pre); l1 = T.ledger_value(s.post)
             dl = z(sub(l1, l0)); dS = z(sub(S1, S0))
             resid = z(sub(sub(l1, l0), sub(S1, S0)))
             ok, w = equal(resid, ZERO, facts_)
